@@ -102,7 +102,14 @@ func runSCEP(k *Case) result {
 		return fail("self-signed", err)
 	}
 	cacert := e.extra["cacert"].(*x509.Certificate)
-	msg, err := smallscep.NewCSRRequest(csr, &smallscep.PKIMessage{MessageType: smallscep.PKCSReq,
+	mt := smallscep.PKCSReq
+	switch k.Var {
+	case "renewal":
+		mt = smallscep.RenewalReq
+	case "update":
+		mt = smallscep.UpdateReq
+	}
+	msg, err := smallscep.NewCSRRequest(csr, &smallscep.PKIMessage{MessageType: mt,
 		Recipients: []*x509.Certificate{cacert}, SignerCert: sc, SignerKey: key})
 	if err != nil {
 		return fail("pkcsreq", err)
@@ -147,7 +154,17 @@ func runSCEP(k *Case) result {
 	d := func(t string) int { return after[t] - before[t] }
 	stored := d("x509_certs")
 	nrec := e.recorded(hs)
+	fc := failClosed(cl, got, ev, e.rec.endpoints(), len(hs), nrec, 0, 0, "na", false)
+	if cl == "ok" && k.CH > 0 && k.Var != "badhook" { // challenge webhooks are configured: one of them must have allowed
+		allowed := false
+		for _, x := range ev {
+			allowed = allowed || x == "challenge:ok"
+		}
+		if !allowed {
+			fc = "BROKEN"
+		}
+	}
 	out := fmt.Sprintf("%s got=%s tok=0 stored=%d data=%d rev=0 reuse=na handed=%d recorded=%d fc=%s trace=%s", cl, got, stored,
-		d("x509_certs_data"), len(hs), nrec, failClosed(cl, got, ev, e.rec.endpoints(), len(hs), nrec, 0, 0, "na", false), c.List(ev))
+		d("x509_certs_data"), len(hs), nrec, fc, c.List(ev))
 	return result{out: out, trace: ev}
 }
